@@ -119,6 +119,22 @@ def viol04Step (pre post : Sim) : List String :=
       (if ratAbs (dl - (dg - dx)) ≤ tol then [] else [s!"C04/ledger| vehicle {v.id}: level changed by {Val.show (.q dl)} but gained-expended changed by {Val.show (.q (dg - dx))}"]) ++
       (if dg < -tol || dx < -tol then [s!"C04/totals-decrease| vehicle {v.id}: running totals decreased"] else [])
 
+/-- C04 per phase, from the charge events: a charging step adds no more than the plug the vehicle
+    is connected to - the station's own, possibly throttled, plug - delivers in one step
+    (electricity: kW × s / 3600; fuel: units per second × s), and never a negative amount -/
+def viol04Plug (isEl : MechId → Bool) (pre : Sim) (evs : List Event) : List String :=
+  evs.flatMap fun
+    | .charge v sid cid amount _ =>
+      match pre.vehicle? v, (pre.station? sid).bind (·.plug? cid) with
+      | some veh, some cs =>
+        let bound : Rat := if isEl veh.mech then cs.rate * pre.dt * (1 / 3600) else cs.rate * pre.dt
+        (if amount > bound + absTol bound then
+          [s!"C04/charge-exceeds-plug| vehicle {v} gained {Val.show (.q amount)} in one step at plug {cid} of station {sid}, which delivers at most {Val.show (.q bound)} in a step (rate {Val.show (.q cs.rate)})"]
+         else []) ++
+        (if amount < -(absTol bound) then [s!"C04/charge-lowered| vehicle {v}: a charging step at station {sid} carries the negative amount {Val.show (.q amount)}"] else [])
+      | _, _ => []
+    | _ => []
+
 /-- C04, last clause, per update phase: a vehicle that ends the phase with no energy left has not
     moved in it (`move` takes a vehicle whose movement would empty it out of service *instead of*
     moving it) -/
